@@ -516,6 +516,42 @@ fn check_bad(c: &BadCase, st: &mut Stats) -> Result<(), Failure> {
     Ok(())
 }
 
+/// judge one token string (libFuzzer target and its replays): never a panic;
+/// over-long tokens and tokens with characters outside the URL-safe
+/// alphabet are invalid by construction; anything accepted must be what an
+/// independent lenient decoder finds.
+pub fn judge_token_string(token: &str) -> Result<(), Failure> {
+    let mut style = Style(1);
+    let q = token_query(token, &mut style);
+    let invalid = token.len() > MAX_TOKEN || token.bytes().any(|b| !(ALPHABET.contains(&b) || b == b'='));
+    match accept_query::<TypedSel>(&q) {
+        Accept::Panicked(p) => fail!("token-panic:fuzz", "token {:?}: panicked: {}", truncate(token, 200), p),
+        Accept::Refused(_) => Ok(()),
+        Accept::First => fail!("token-ignored", "token {:?} was treated as a first page", truncate(token, 100)),
+        Accept::Next(s) => {
+            ensure!(!invalid, "invalid-token-accepted:fuzz", "token {:?} ({} characters) is invalid by construction but was accepted", truncate(token, 700), token.len());
+            let want = reference_decode(token).and_then(|v| serde_json::from_value::<TypedSel>(v).ok());
+            ensure!(want.as_ref() == Some(&s), "mutated-token-accepted-differently", "token {:?} accepted as {:?}, reference decoder yields {:?}", truncate(token, 700), s, want);
+            Ok(())
+        }
+    }
+}
+
+#[derive(Clone, Debug, Serialize, Deserialize)]
+pub struct FuzzInput {
+    pub bytes: Vec<u8>,
+}
+
+fn check_fuzz_input(c: &FuzzInput, st: &mut Stats) -> Result<(), Failure> {
+    st.eval();
+    st.nontrivial(hash_of(&c.bytes));
+    st.nontrivial(1);
+    match std::str::from_utf8(&c.bytes) {
+        Ok(s) => judge_token_string(s),
+        Err(_) => Ok(()),
+    }
+}
+
 // ---- phase 3: live (status codes for tokens, limit clamp) ------------------------
 
 #[derive(Clone, Debug, Serialize, Deserialize)]
@@ -642,6 +678,7 @@ fn check_live(addr: std::net::SocketAddr, entered: &dyn Fn() -> u64, rt: &tokio:
 pub fn run(ctx: &mut Ctx) {
     ctx.rule = "round trip: typed and free-form JSON selectors (any Unicode, numbers, nesting) with sizes concentrated around the 512-character bound, issued with ResultsPage::new and accepted with serde_urlencoded::from_str::<PaginationParams<..>>, alone and together with arbitrary/ill-typed scan parameters; refusal: tokens invalid by construction (over-long but otherwise valid, character outside the URL-safe alphabet, base64 of non-JSON, missing v/page_start, wrong version, wrong shape, trailing garbage, empty) and free byte mutations of valid tokens judged against a lenient independent decoder; live: 4xx for bad tokens, limit clamp table. non-trivial: issued token within 16 characters of the bound or non-ASCII selector; every bad token and limit string (distinct by text)".into();
     ctx.assume("selectors contain no floats; limit is not a scan parameter (an invalid limit next to a token is still refused)");
+    ctx.phase("fuzz_input", 0, Just(FuzzInput { bytes: vec![] }), check_fuzz_input);
     let n = ctx.tier.pick(20000, 400000);
     ctx.phase("round_trip", n, rt_case(), check_rt);
     ctx.require_frac("round_trip", "issued_near_bound", "issued", 0.03);
